@@ -45,6 +45,16 @@ func (d *drv) exec(cmd string) bool {
 			return false
 		}
 		d.stop(w)
+	case "block":
+		var i int
+		if len(f) < 2 || f[1][0] != 'g' {
+			return false
+		}
+		fmt.Sscanf(f[1][1:], "%d", &i)
+		if i >= len(d.calls) || !d.blockable(d.calls[i]) {
+			return false
+		}
+		d.blockCall(d.calls[i])
 	case "probe":
 		d.probe()
 	case "step":
@@ -90,6 +100,9 @@ func (d *drv) propose(r *kit.Rng, kind string, nextOff map[int]uint64, step, bud
 	for _, g := range d.calls {
 		if d.callEnabled(g) {
 			add(6, "step g%d", g.id)
+		}
+		if d.blockable(g) {
+			add(3, "block g%d", g.id)
 		}
 	}
 	if d.notifEnabled() {
@@ -181,6 +194,118 @@ func (d *drv) propose(r *kit.Rng, kind string, nextOff map[int]uint64, step, bud
 	return ws
 }
 
+// burst: the notifier is held parked while more than eventsChannelSize events are produced, so
+// that the last Update of the victim projection has to block in its enqueue with a full queue of
+// events of other projections; the victim's subscriber shares no projection with them
+func (d *drv) burst(r *kit.Rng, sc *scenario) {
+	do := func(format string, a ...any) bool {
+		cmd := fmt.Sprintf(format, a...)
+		if d.aborted || !d.exec(cmd) {
+			return false
+		}
+		sc.Script = append(sc.Script, cmd)
+		return true
+	}
+	last := func() int { return len(d.calls) - 1 }
+	// run every call, the notifier and the watchers until nothing can move
+	settleAll := func() {
+		for moved := true; moved && !d.aborted; {
+			moved = false
+			for _, g := range d.calls {
+				if d.callEnabled(g) {
+					moved = do("step g%d", g.id) || moved
+				}
+			}
+			for d.notifEnabled() && do("step n") {
+				moved = true
+			}
+			for _, w := range d.sortedWatchers() {
+				for d.watchEnabled(w) && do("step w%d", w.c) {
+					moved = true
+				}
+			}
+		}
+	}
+	victim := r.Intn(nProj)
+	others := []int{(victim + 1) % nProj, (victim + 2) % nProj}
+	off := map[int]uint64{}
+	upd := func(p int) bool {
+		off[p] += uint64(1 + r.Intn(3))
+		return do("upd %d %d", p, off[p])
+	}
+	do("new 0")
+	do("new 1")
+	do("sub 0 %d", victim)
+	do("sub 1 %d", others[0])
+	if r.Bool() {
+		do("sub 1 %d", others[1])
+	}
+	do("watch 0")
+	if r.Chance(2, 3) {
+		do("watch 1")
+	}
+	settleAll() // the notifier has handled the subscriptions and is parked at a point now
+	if r.Chance(2, 3) {
+		upd(victim)
+		settleAll()
+	}
+	// fill the queue with events of the other projections while the notifier is not stepped
+	for d.room() && !d.aborted {
+		switch {
+		case r.Chance(1, 8):
+			if do("sub 1 %d", others[r.Intn(2)]) {
+				g := d.calls[last()]
+				for !g.pr.done && d.callEnabled(g) && do("step g%d", g.id) {
+				}
+			}
+		default:
+			if upd(others[r.Intn(2)]) {
+				do("step g%d", last())
+			}
+		}
+		if r.Chance(1, 6) {
+			for _, w := range d.sortedWatchers() {
+				if d.watchEnabled(w) {
+					do("step w%d", w.c)
+				}
+			}
+		}
+	}
+	// sometimes an earlier update of the victim is stored but not queued (it stays in flight)
+	if r.Chance(1, 5) {
+		upd(victim)
+	}
+	// the last update of the victim: must block in its enqueue
+	upd(victim)
+	do("block g%d", last())
+	if r.Chance(1, 2) {
+		upd(others[r.Intn(2)]) // stored, cannot be queued either
+	}
+	// a random tail; whatever is left is finished by the drain phase
+	for i, n := 0, r.Intn(8); i < n && !d.aborted; i++ {
+		switch r.Intn(3) {
+		case 0:
+			if d.notifEnabled() {
+				do("step n")
+			}
+		case 1:
+			for _, g := range d.calls {
+				if d.callEnabled(g) {
+					do("step g%d", g.id)
+					break
+				}
+			}
+		case 2:
+			for _, w := range d.sortedWatchers() {
+				if d.watchEnabled(w) {
+					do("step w%d", w.c)
+					break
+				}
+			}
+		}
+	}
+}
+
 func genQuotas(r *kit.Rng, kind string) [4]int {
 	switch r.Intn(6) {
 	case 0:
@@ -211,6 +336,8 @@ func run(sc *scenario, r *kit.Rng, budget int) (coq string, tags []string, d *dr
 				d.stuck(300, "script:"+cmd)
 			}
 		}
+	} else if sc.Kind == "burst" {
+		d.burst(r, sc)
 	} else {
 		nextOff := map[int]uint64{}
 		total := budget + 40
@@ -321,8 +448,16 @@ func Generate(seed uint64, n int, tier string, corpusDir string, out *kit.Out) e
 			kind = "overlap"
 		case 5:
 			kind = "malformed"
+		case 6:
+			// a few per quick run, one in seven in the thorough tier
+			if tier == "thorough" || i%28 == 6 {
+				kind = "burst"
+			}
 		}
 		sc := &scenario{Kind: kind, Quotas: genQuotas(cr, kind)}
+		if kind == "burst" {
+			sc.Quotas = [4]int{4, 3, 9, 6}
+		}
 		budget := 25 + cr.Intn(50)
 		if tier == "thorough" {
 			budget += cr.Intn(80)
